@@ -22,7 +22,7 @@ type flusher interface {
 }
 
 func (f FlushComponent) Render(ctx context.Context, w io.Writer) (err error) {
-	if err = GetChildren(ctx).Render(ctx, w); err != nil {
+	if err = renderChildren(ctx, w); err != nil {
 		return err
 	}
 	switch w := w.(type) {
